@@ -9,13 +9,22 @@ SPEC = dict(
          "sphere / cylinder / ellipsoid / torus obstacles pressed into the line or lifted off, via points, attachment "
          "bodies drawn at random), ~20% CablePath through via points + CableSpring, ~10% CablePath over spheres + "
          "CableSpring; only converged solves are used; distinct = distinct exported path records",
-    partial="the path solver (geodesic shooting, Newton/QP iteration, touchdown / lift-off) is not modelled: path points, "
-            "tangents and arc lengths are exported from the implementation and the model recomputes length, length rate, "
-            "unit forces, power and force/moment resultants from them (agreement 1e-15); the theorems about power and the "
-            "third law assume the smoothness a converged solve delivers; 'length rate is the time derivative' is proved for "
-            "straight segments and whole via-point paths (jets) and measured by central differences along qdot=N u for "
-            "curved segments; 'curved segments lie on the surface' and 'straight segments stay outside' are "
-            "implementation-side predicates only (closed-form implicit functions of sphere/cylinder/ellipsoid/torus); "
-            "legacy CablePath has no convergence flag: the harness re-realizes until the length is stationary",
+    partial="(i) proved about the executed model (CableSpan.cpp formulas, tied to the implementation at 1e-14 on every unit force, "
+            "length, length rate, power, resultants): length >= end-point distance given arcs >= chords (length_ge_straight); length "
+            "rate = d/dt length for straight segments and whole via-point paths (jets: lengthdot_is_derivative, "
+            "lengthDot_via_is_derivative); for ANY path data resultant force = sum of tangent defects and power + T*Ldot = T * sum "
+            "defect.velocity (totalForce_eq_defects, unitPower_add_lengthDot_eq_defects), hence zero for an exactly smooth path "
+            "(forces_sum_zero, moments_sum_zero, power_eq_minus_tension_lengthdot); the harness bounds the force / moment / power "
+            "predicates by 3*nSegments*getSmoothness via these identities (the step defect <= sqrt2*path error is not formalised).  "
+            "(ii) predicate-only: length = sum of segments; arcs >= chords; length rate = dL/dt for CURVED segments (central "
+            "difference along qdot=N u, 2e-4 relative, skipped when the contact set changes; a missing term below 1e-4 relative is not "
+            "detectable); curve points on the surface (7 samples, closed-form implicit functions); straight segments outside "
+            "obstacles (closed-form line/quadric test for sphere, cylinder, ellipsoid; 23 samples for the torus); tangents aligned "
+            "with their segments; CableSpring power and resultants; slack cable applies nothing.  Floors require >= 80 % of the "
+            "CableSpan solves per algorithm to converge, >= 30 % of them with a contact, >= 80 % of the finite differences to be "
+            "usable, >= 15 % of the legacy CablePath-over-surface solves to converge (legacy CablePath has no convergence flag: its "
+            "status is scraped from std::cout text, a wording change would trip this floor).  (iii) not covered: the path solver "
+            "itself (geodesic shooting, Newton/QP iteration, touchdown / lift-off decisions) beyond the predicates above; closed-form "
+            "geodesics (C47)",
     assumptions=["libm sqrt is trusted (the model takes sqrt as a parameter with its algebraic specification)"],
 )
